@@ -7,81 +7,81 @@ open ImathVerif
 
 /-- extracted from the C++ template at T = Sym; 2 path(s) -/
 def Plane3.setPoints {α : Type} [Add α] [Sub α] [Mul α] [Div α] [Neg α] [LT α] [LE α] [DecidableLT α] [DecidableLE α] [DecidableEq α] [OfNat α 0] [OfNat α 2] (tmin : α) (sqrt : α → α) (p1 : V3 α) (p2 : V3 α) (p3 : V3 α) : (Plane3 α) :=
-  let t717 := (p3.z - p1.z)
-  let t718 := (p3.y - p1.y)
-  let t719 := (p3.x - p1.x)
-  let t720 := (p2.z - p1.z)
-  let t721 := (p2.y - p1.y)
-  let t722 := (p2.x - p1.x)
-  let t725 := ((t722 * t718) - (t721 * t719))
-  let t728 := ((t720 * t719) - (t722 * t717))
-  let t731 := ((t721 * t717) - (t720 * t718))
-  let t732 := (V3.length tmin sqrt ⟨t731, t728, t725⟩)
-  let t738 := (t731 / t732)
-  let t739 := (t728 / t732)
-  let t740 := (t725 / t732)
-  if t732 = (0 : α) then
-    ⟨⟨t731, t728, t725⟩, (((t731 * p1.x) + (t728 * p1.y)) + (t725 * p1.z))⟩
+  let t734 := (p3.z - p1.z)
+  let t735 := (p3.y - p1.y)
+  let t736 := (p3.x - p1.x)
+  let t737 := (p2.z - p1.z)
+  let t738 := (p2.y - p1.y)
+  let t739 := (p2.x - p1.x)
+  let t742 := ((t739 * t735) - (t738 * t736))
+  let t745 := ((t737 * t736) - (t739 * t734))
+  let t748 := ((t738 * t734) - (t737 * t735))
+  let t749 := (V3.length tmin sqrt ⟨t748, t745, t742⟩)
+  let t755 := (t748 / t749)
+  let t756 := (t745 / t749)
+  let t757 := (t742 / t749)
+  if t749 = (0 : α) then
+    ⟨⟨t748, t745, t742⟩, (((t748 * p1.x) + (t745 * p1.y)) + (t742 * p1.z))⟩
   else
-    ⟨⟨t738, t739, t740⟩, (((t738 * p1.x) + (t739 * p1.y)) + (t740 * p1.z))⟩
+    ⟨⟨t755, t756, t757⟩, (((t755 * p1.x) + (t756 * p1.y)) + (t757 * p1.z))⟩
 
 /-- extracted from the C++ template at T = Sym; 2 path(s) -/
 def Plane3.setPointNormal {α : Type} [Add α] [Mul α] [Div α] [Neg α] [LT α] [LE α] [DecidableLT α] [DecidableLE α] [DecidableEq α] [OfNat α 0] [OfNat α 2] (tmin : α) (sqrt : α → α) (point : V3 α) (n : V3 α) : (Plane3 α) :=
-  let t752 := (V3.length tmin sqrt ⟨n.x, n.y, n.z⟩)
-  let t758 := (n.x / t752)
-  let t759 := (n.y / t752)
-  let t760 := (n.z / t752)
-  if t752 = (0 : α) then
+  let t769 := (V3.length tmin sqrt ⟨n.x, n.y, n.z⟩)
+  let t775 := (n.x / t769)
+  let t776 := (n.y / t769)
+  let t777 := (n.z / t769)
+  if t769 = (0 : α) then
     ⟨⟨n.x, n.y, n.z⟩, (((n.x * point.x) + (n.y * point.y)) + (n.z * point.z))⟩
   else
-    ⟨⟨t758, t759, t760⟩, (((t758 * point.x) + (t759 * point.y)) + (t760 * point.z))⟩
+    ⟨⟨t775, t776, t777⟩, (((t775 * point.x) + (t776 * point.y)) + (t777 * point.z))⟩
 
 /-- extracted from the C++ template at T = Sym; 2 path(s) -/
 def Plane3.setNormalDistance {α : Type} [Add α] [Mul α] [Div α] [Neg α] [LT α] [LE α] [DecidableLT α] [DecidableLE α] [DecidableEq α] [OfNat α 0] [OfNat α 2] (tmin : α) (sqrt : α → α) (n : V3 α) (d : α) : (Plane3 α) :=
-  let t752 := (V3.length tmin sqrt ⟨n.x, n.y, n.z⟩)
-  if t752 = (0 : α) then
+  let t769 := (V3.length tmin sqrt ⟨n.x, n.y, n.z⟩)
+  if t769 = (0 : α) then
     ⟨⟨n.x, n.y, n.z⟩, d⟩
   else
-    ⟨⟨(n.x / t752), (n.y / t752), (n.z / t752)⟩, d⟩
+    ⟨⟨(n.x / t769), (n.y / t769), (n.z / t769)⟩, d⟩
 
 /-- extracted from the C++ template at T = Sym; 2 path(s) -/
 def Plane3.ctorPoints {α : Type} [Add α] [Sub α] [Mul α] [Div α] [Neg α] [LT α] [LE α] [DecidableLT α] [DecidableLE α] [DecidableEq α] [OfNat α 0] [OfNat α 2] (tmin : α) (sqrt : α → α) (p1 : V3 α) (p2 : V3 α) (p3 : V3 α) : (Plane3 α) :=
-  let t717 := (p3.z - p1.z)
-  let t718 := (p3.y - p1.y)
-  let t719 := (p3.x - p1.x)
-  let t720 := (p2.z - p1.z)
-  let t721 := (p2.y - p1.y)
-  let t722 := (p2.x - p1.x)
-  let t725 := ((t722 * t718) - (t721 * t719))
-  let t728 := ((t720 * t719) - (t722 * t717))
-  let t731 := ((t721 * t717) - (t720 * t718))
-  let t732 := (V3.length tmin sqrt ⟨t731, t728, t725⟩)
-  let t738 := (t731 / t732)
-  let t739 := (t728 / t732)
-  let t740 := (t725 / t732)
-  if t732 = (0 : α) then
-    ⟨⟨t731, t728, t725⟩, (((t731 * p1.x) + (t728 * p1.y)) + (t725 * p1.z))⟩
+  let t734 := (p3.z - p1.z)
+  let t735 := (p3.y - p1.y)
+  let t736 := (p3.x - p1.x)
+  let t737 := (p2.z - p1.z)
+  let t738 := (p2.y - p1.y)
+  let t739 := (p2.x - p1.x)
+  let t742 := ((t739 * t735) - (t738 * t736))
+  let t745 := ((t737 * t736) - (t739 * t734))
+  let t748 := ((t738 * t734) - (t737 * t735))
+  let t749 := (V3.length tmin sqrt ⟨t748, t745, t742⟩)
+  let t755 := (t748 / t749)
+  let t756 := (t745 / t749)
+  let t757 := (t742 / t749)
+  if t749 = (0 : α) then
+    ⟨⟨t748, t745, t742⟩, (((t748 * p1.x) + (t745 * p1.y)) + (t742 * p1.z))⟩
   else
-    ⟨⟨t738, t739, t740⟩, (((t738 * p1.x) + (t739 * p1.y)) + (t740 * p1.z))⟩
+    ⟨⟨t755, t756, t757⟩, (((t755 * p1.x) + (t756 * p1.y)) + (t757 * p1.z))⟩
 
 /-- extracted from the C++ template at T = Sym; 2 path(s) -/
 def Plane3.ctorPointNormal {α : Type} [Add α] [Mul α] [Div α] [Neg α] [LT α] [LE α] [DecidableLT α] [DecidableLE α] [DecidableEq α] [OfNat α 0] [OfNat α 2] (tmin : α) (sqrt : α → α) (point : V3 α) (n : V3 α) : (Plane3 α) :=
-  let t752 := (V3.length tmin sqrt ⟨n.x, n.y, n.z⟩)
-  let t758 := (n.x / t752)
-  let t759 := (n.y / t752)
-  let t760 := (n.z / t752)
-  if t752 = (0 : α) then
+  let t769 := (V3.length tmin sqrt ⟨n.x, n.y, n.z⟩)
+  let t775 := (n.x / t769)
+  let t776 := (n.y / t769)
+  let t777 := (n.z / t769)
+  if t769 = (0 : α) then
     ⟨⟨n.x, n.y, n.z⟩, (((n.x * point.x) + (n.y * point.y)) + (n.z * point.z))⟩
   else
-    ⟨⟨t758, t759, t760⟩, (((t758 * point.x) + (t759 * point.y)) + (t760 * point.z))⟩
+    ⟨⟨t775, t776, t777⟩, (((t775 * point.x) + (t776 * point.y)) + (t777 * point.z))⟩
 
 /-- extracted from the C++ template at T = Sym; 2 path(s) -/
 def Plane3.ctorNormalDistance {α : Type} [Add α] [Mul α] [Div α] [Neg α] [LT α] [LE α] [DecidableLT α] [DecidableLE α] [DecidableEq α] [OfNat α 0] [OfNat α 2] (tmin : α) (sqrt : α → α) (n : V3 α) (d : α) : (Plane3 α) :=
-  let t752 := (V3.length tmin sqrt ⟨n.x, n.y, n.z⟩)
-  if t752 = (0 : α) then
+  let t769 := (V3.length tmin sqrt ⟨n.x, n.y, n.z⟩)
+  if t769 = (0 : α) then
     ⟨⟨n.x, n.y, n.z⟩, d⟩
   else
-    ⟨⟨(n.x / t752), (n.y / t752), (n.z / t752)⟩, d⟩
+    ⟨⟨(n.x / t769), (n.y / t769), (n.z / t769)⟩, d⟩
 
 /-- extracted from the C++ template at T = Sym; 1 path(s) -/
 def Plane3.distanceTo {α : Type} [Add α] [Sub α] [Mul α] (pl : Plane3 α) (p : V3 α) : α :=
@@ -89,41 +89,41 @@ def Plane3.distanceTo {α : Type} [Add α] [Sub α] [Mul α] (pl : Plane3 α) (p
 
 /-- extracted from the C++ template at T = Sym; 1 path(s) -/
 def Plane3.reflectPoint {α : Type} [Add α] [Sub α] [Mul α] [Neg α] [OfNat α 2] (pl : Plane3 α) (p : V3 α) : (V3 α) :=
-  let t776 := ((((p.x * pl.normal.x) + (p.y * pl.normal.y)) + (p.z * pl.normal.z)) - pl.distance)
-  ⟨(((pl.normal.x * t776) * (-(2 : α))) + p.x), (((pl.normal.y * t776) * (-(2 : α))) + p.y), (((pl.normal.z * t776) * (-(2 : α))) + p.z)⟩
+  let t793 := ((((p.x * pl.normal.x) + (p.y * pl.normal.y)) + (p.z * pl.normal.z)) - pl.distance)
+  ⟨(((pl.normal.x * t793) * (-(2 : α))) + p.x), (((pl.normal.y * t793) * (-(2 : α))) + p.y), (((pl.normal.z * t793) * (-(2 : α))) + p.z)⟩
 
 /-- extracted from the C++ template at T = Sym; 1 path(s) -/
 def Plane3.reflectVector {α : Type} [Add α] [Sub α] [Mul α] [OfNat α 2] (pl : Plane3 α) (v : V3 α) : (V3 α) :=
-  let t794 := (((pl.normal.x * v.x) + (pl.normal.y * v.y)) + (pl.normal.z * v.z))
-  ⟨(((pl.normal.x * t794) * (2 : α)) - v.x), (((pl.normal.y * t794) * (2 : α)) - v.y), (((pl.normal.z * t794) * (2 : α)) - v.z)⟩
+  let t811 := (((pl.normal.x * v.x) + (pl.normal.y * v.y)) + (pl.normal.z * v.z))
+  ⟨(((pl.normal.x * t811) * (2 : α)) - v.x), (((pl.normal.y * t811) * (2 : α)) - v.y), (((pl.normal.z * t811) * (2 : α)) - v.z)⟩
 
 /-- extracted from the C++ template at T = Sym; 2 path(s) -/
 def Plane3.intersect {α : Type} [Add α] [Sub α] [Mul α] [Div α] [Neg α] [DecidableEq α] [OfNat α 0] (pl : Plane3 α) (l : Line3 α) : (Bool × (V3 α)) :=
-  let t808 := (((pl.normal.x * l.dir.x) + (pl.normal.y * l.dir.y)) + (pl.normal.z * l.dir.z))
-  let t816 := ((-((((pl.normal.x * l.pos.x) + (pl.normal.y * l.pos.y)) + (pl.normal.z * l.pos.z)) - pl.distance)) / t808)
-  if t808 = (0 : α) then
+  let t825 := (((pl.normal.x * l.dir.x) + (pl.normal.y * l.dir.y)) + (pl.normal.z * l.dir.z))
+  let t833 := ((-((((pl.normal.x * l.pos.x) + (pl.normal.y * l.pos.y)) + (pl.normal.z * l.pos.z)) - pl.distance)) / t825)
+  if t825 = (0 : α) then
     (false, ⟨(0 : α), (0 : α), (0 : α)⟩)
   else
-    (true, ⟨(l.pos.x + (l.dir.x * t816)), (l.pos.y + (l.dir.y * t816)), (l.pos.z + (l.dir.z * t816))⟩)
+    (true, ⟨(l.pos.x + (l.dir.x * t833)), (l.pos.y + (l.dir.y * t833)), (l.pos.z + (l.dir.z * t833))⟩)
 
 /-- extracted from the C++ template at T = Sym; 2 path(s) -/
 def Plane3.intersectT {α : Type} [Add α] [Sub α] [Mul α] [Div α] [Neg α] [DecidableEq α] [OfNat α 0] (pl : Plane3 α) (l : Line3 α) : (Bool × α) :=
-  let t808 := (((pl.normal.x * l.dir.x) + (pl.normal.y * l.dir.y)) + (pl.normal.z * l.dir.z))
-  if t808 = (0 : α) then
+  let t825 := (((pl.normal.x * l.dir.x) + (pl.normal.y * l.dir.y)) + (pl.normal.z * l.dir.z))
+  if t825 = (0 : α) then
     (false, (0 : α))
   else
-    (true, ((-((((pl.normal.x * l.pos.x) + (pl.normal.y * l.pos.y)) + (pl.normal.z * l.pos.z)) - pl.distance)) / t808))
+    (true, ((-((((pl.normal.x * l.pos.x) + (pl.normal.y * l.pos.y)) + (pl.normal.z * l.pos.z)) - pl.distance)) / t825))
 
 /-- extracted from the C++ template at T = Sym; 2 path(s) -/
 def Plane3.neg {α : Type} [Add α] [Mul α] [Div α] [Neg α] [LT α] [LE α] [DecidableLT α] [DecidableLE α] [DecidableEq α] [OfNat α 0] [OfNat α 2] (tmin : α) (sqrt : α → α) (pl : Plane3 α) : (Plane3 α) :=
-  let t823 := (-pl.distance)
-  let t824 := (-pl.normal.z)
-  let t825 := (-pl.normal.y)
-  let t826 := (-pl.normal.x)
-  let t827 := (V3.length tmin sqrt ⟨t826, t825, t824⟩)
-  if t827 = (0 : α) then
-    ⟨⟨t826, t825, t824⟩, t823⟩
+  let t840 := (-pl.distance)
+  let t841 := (-pl.normal.z)
+  let t842 := (-pl.normal.y)
+  let t843 := (-pl.normal.x)
+  let t844 := (V3.length tmin sqrt ⟨t843, t842, t841⟩)
+  if t844 = (0 : α) then
+    ⟨⟨t843, t842, t841⟩, t840⟩
   else
-    ⟨⟨(t826 / t827), (t825 / t827), (t824 / t827)⟩, t823⟩
+    ⟨⟨(t843 / t844), (t842 / t844), (t841 / t844)⟩, t840⟩
 
 end ImathVerif.Gen
